@@ -3531,13 +3531,20 @@ class DecVar(Vars):
         # events = list(events) if isinstance(events, Iterable) else [events]
         events = [events] if isinstance(events, (str, Real)) else list(events)
 
+        if len(events) == 0:
+            return
+
+        indices = []
         for event in events:
             index = self.dro_model.series_scen[event]
-            if self.event_rest and index in self.event_adapt[0]:
-                self.event_adapt[0].remove(index)
+            if (self.event_rest and index in self.event_adapt[0] and
+                    index not in indices):
+                indices.append(index)
             else:
                 raise KeyError('Wrong scenario index or {0} '.format(event) +
                                'has been redefined.')
+        for index in indices:
+            self.event_adapt[0].remove(index)
 
         if not self.event_adapt[0]:
             self.event_adapt.pop(0)
